@@ -422,7 +422,10 @@ public:
                   Scalar tol = 1e-10, SortRule sorting = SortRule::LargestMagn)
     {
         // The m-step Arnoldi factorization
-        m_fac.factorize_from(1, m_ncv, m_nmatop);
+        // After init() this extends the step-1 factorization to m steps.
+        // If compute() is called again without a new init(), the m-step factorization
+        // of the previous run is still valid and the iteration continues from it.
+        m_fac.factorize_from((std::max)(Index(1), m_fac.subspace_dim()), m_ncv, m_nmatop);
         retrieve_ritzpair(selection);
         // Restarting
         Index i, nconv = 0, nev_adj;
